@@ -36,8 +36,12 @@ class _Parser(object):
         self.E, self.ds, self.params, self.expect, self.fail, self.result = E, ds, params, expect, fail, result
         self.seen = None
         self.stream_pos = None
+        self.fn = None
+        self.flag_during = None
     def parse(self, stream):
         self.stream_pos = stream.tell()
+        # a nested call of the same function from the body must be refused: the flag is up
+        self.flag_during = self.fn._is_parsing if self.fn is not None else None
         # what the parameters hold while the body runs
         self.seen = {}
         for name in self.params:
@@ -88,6 +92,7 @@ def t_evaluate(E, params, preexisting, fail):
     expect = {}
     parser = _Parser(E, ds, list(dict.fromkeys(full)), expect, fail, result)
     fn = E.new(userfunctions.UserFunction, b'FNA!', stream, list(params), ds, parser)
+    parser.fn = fn
     stream.seek(400)
     stream.log = []
     r = E.call(fn.evaluate, iter(args))
@@ -103,6 +108,7 @@ def t_evaluate(E, params, preexisting, fail):
     E.prove(fn._is_parsing is False, 'recursion flag cleared')
     E.prove(stream.tell() == 400, 'code stream position restored')
     E.prove(parser.stream_pos == 17, 'the body is evaluated from the definition')
+    E.prove(parser.flag_during is True, 'while the body is evaluated the function is marked as being evaluated (recursion guard)')
     E.prove(len(ds.temp_values) == 0, 'temporaries released')
     # during evaluation the parameters held the converted arguments
     if parser.seen is not None:
@@ -116,7 +122,7 @@ def t_evaluate(E, params, preexisting, fail):
                     'during evaluation the parameter holds the converted argument')
 
 
-def t_recursion(E):
+def t_recursion(E, params):
     ds = E.new(memory_mod.DataSegment, 65534, 3429, 128, 3, False)
     ds.set_buffers(_Prog())
     ds.values.set_handler(values.FloatErrorHandler(None))
@@ -125,10 +131,10 @@ def t_recursion(E):
     E.call(ds.scalars.set, b'X!', v)
     v0 = snapshot(v)
     stream = Stream(17)
-    fn = E.new(userfunctions.UserFunction, b'FNA!', stream, [b'X'], ds, None)
+    fn = E.new(userfunctions.UserFunction, b'FNA!', stream, list(params), ds, None)
     fn._is_parsing = True
     a = E.new(numbers.Integer, E.bytes('arg', 2), vals)
-    r = E.call(fn.evaluate, iter([a]))
+    r = E.call(fn.evaluate, iter([a] * len(params)))
     E.prove(r.is_error(BASICError, error.OUT_OF_MEMORY), 'a function that calls itself raises Out of memory')
     E.prove(same_bytes(cells(E.call(ds.scalars.get, b'X!').value), v0), 'and the caller\'s variable is untouched')
 
@@ -137,7 +143,7 @@ TASKS = [
     Task('UserFunction.evaluate', t_evaluate,
          cases=[{'params': p, 'preexisting': pre, 'fail': f}
                 for p in ((), (b'X',), (b'X', b'Y%'), (b'A#', b'A#')) for pre in (True, False) for f in (True, False)]),
-    Task('UserFunction.evaluate (recursion)', t_recursion),
+    Task('UserFunction.evaluate (recursion)', t_recursion, cases=[{'params': p} for p in ((), (b'X',), (b'X', b'Y%'))]),
 ]
 
 ASSUMPTIONS = [
